@@ -197,3 +197,57 @@ def probe_slow(repo, python=None, budget=12.0):
     if ok != 2 * len(slow_texts()):
         return ok, ('probe-incomplete', 0, None)
     return ok, None
+
+
+# ------------------------------------------------------------------------------------------------ DOCTYPEs of real producers
+# Document type declarations as real (legacy) producers wrote them - OpenOffice.org 1.x / StarOffice (`office.dtd`, `Manifest.dtd`,
+# `math.dtd` next to the package), W3C and OASIS vocabularies that get embedded - EACH COMBINED with an internal subset.  A reader
+# that "knows" such a DOCTYPE (strips it, skips it, treats the file as an old format) must still see what the internal subset
+# declares.  Additive: SHAPES above is unchanged.
+LEGACY_IDS = [
+    ('ooo-office', u' PUBLIC "-//OpenOffice.org//DTD OfficeDocument 1.0//EN" "office.dtd"'),
+    ('w3c-xhtml', u' PUBLIC "-//W3C//DTD XHTML 1.0 Strict//EN" "http://www.w3.org/TR/xhtml1/DTD/xhtml1-strict.dtd"'),
+    ('ooo-manifest', u' PUBLIC "-//OpenOffice.org//DTD Manifest 1.0//EN" "Manifest.dtd"'),
+    ('w3c-mathml', u' PUBLIC "-//W3C//DTD MathML 2.0//EN" "http://www.w3.org/Math/DTD/mathml2/mathml2.dtd"'),
+    ('ooo-math', u' PUBLIC "-//OpenOffice.org//DTD Modified W3C MathML 1.01//EN" "math.dtd"'),
+    ('w3c-svg', u' PUBLIC "-//W3C//DTD SVG 1.1//EN" "http://www.w3.org/Graphics/SVG/1.1/DTD/svg11.dtd"'),
+    ('ooo-office-sq', u" PUBLIC '-//OpenOffice.org//DTD OfficeDocument 1.0//EN' 'office.dtd'"),
+    ('oasis-docbook', u' PUBLIC "-//OASIS//DTD DocBook XML V4.2//EN" "http://www.oasis-open.org/docbook/xml/4.2/docbookx.dtd"'),
+    ('ooo-office-nl', u'\n  PUBLIC "-//OpenOffice.org//DTD OfficeDocument 1.0//EN"\n  "office.dtd"'),
+    ('system-office', u' SYSTEM "office.dtd"'),
+]
+
+# internal subsets: (name, text with {ent} = declared entity text, {file} / {dtd} = URLs of the canary files, declares entities?)
+LEGACY_SUBSETS = [
+    ('ent', u' [<!ENTITY e "{ent}">]', 1),
+    ('ent-lines', u'\n[\n<!ENTITY e "{ent}">\n]\n', 1),
+    ('two-ents', u' [<!ENTITY a "1"><!ENTITY e "{ent}">]', 1),
+    ('comment-gt-first', u' [<!-- > --><!ENTITY e "{ent}">]', 1),
+    ('element-first', u' [<!ELEMENT x ANY><!ENTITY e "{ent}">]', 1),
+    ('ext-general', u' [<!ENTITY e SYSTEM "{file}">]', 1),
+    ('ext-param', u' [<!ENTITY % p SYSTEM "{dtd}"> %p;]', 1),
+    ('ent-then-ext', u'[<!ENTITY a "{ent}"><!ENTITY e SYSTEM "{file}">]', 1),
+    ('no-subset', u'', 0),                      # the legacy DOCTYPE alone: names an external DTD subset
+]
+
+LEGACY_NAMES = ['x', 'root']                    # DOCTYPE name: arbitrary / the name of the document element (as the producers wrote it)
+LEGACY = [(i, s, n) for s, _, _ in LEGACY_SUBSETS for n in LEGACY_NAMES for i, _ in LEGACY_IDS]
+
+
+def legacy_name(shape):
+    return '%s/%s/%s' % shape
+
+
+def apply_legacy(text, decl, shape, entity_text, file_url, dtd_url):
+    """`text` = decl + root element ... -> XML declaration + legacy DOCTYPE (with internal subset) + root element ..."""
+    import re
+    idn, sn, nm = shape
+    assert text.startswith(decl)
+    rest = text[len(decl):]
+    name = u'x' if nm == 'x' else re.match(u'<([^\\s/>]+)', rest).group(1)
+    sub = dict((a, b) for a, b, _ in LEGACY_SUBSETS)[sn].replace(u'{ent}', entity_text).replace(u'{file}', file_url).replace(u'{dtd}', dtd_url)
+    return decl + u'<!DOCTYPE ' + name + dict(LEGACY_IDS)[idn] + sub + u'>\n' + rest
+
+
+def legacy_declares(shape):
+    return dict((a, c) for a, _, c in LEGACY_SUBSETS)[shape[1]]
